@@ -35,6 +35,37 @@ pub struct Shared {
     pub drops: AtomicU64,
     /// When set, every recorder entry point passes a harness sync point while "inside".
     pub yield_inside: AtomicBool,
+    /// Fault: the next recorder entry point reached by one of these simulated threads panics
+    /// (payload `DoublePanic`) before it logs anything.
+    pub panic_next: Mutex<Vec<u32>>,
+    /// Fault: the next recorder entry point reached by one of these simulated threads emits a
+    /// metric of its own through the macros once it has logged the call (a self-instrumented
+    /// recorder).
+    pub reenter_next: Mutex<Vec<u32>>,
+    /// Fault: the next recorder entry point sleeps this many nanoseconds of virtual time inside.
+    pub sleep_inside_ns: AtomicU64,
+}
+
+/// Payload of an injected recorder panic.
+pub struct DoublePanic;
+
+/// Arms a per-thread fault flag.
+pub fn set_flag(f: &Mutex<Vec<u32>>, tid: u32) {
+    let mut g = f.lock().unwrap();
+    if !g.contains(&tid) {
+        g.push(tid);
+    }
+}
+/// Disarms it; true if it was still armed (= the fault did not fire).
+pub fn take_flag(f: &Mutex<Vec<u32>>, tid: u32) -> bool {
+    let mut g = f.lock().unwrap();
+    match g.iter().position(|t| *t == tid) {
+        Some(i) => {
+            g.remove(i);
+            true
+        }
+        None => false,
+    }
 }
 
 impl Shared {
@@ -47,6 +78,9 @@ impl Shared {
             finalised: AtomicBool::new(false),
             drops: AtomicU64::new(0),
             yield_inside: AtomicBool::new(false),
+            panic_next: Mutex::new(vec![]),
+            reenter_next: Mutex::new(vec![]),
+            sleep_inside_ns: AtomicU64::new(0),
         })
     }
 }
@@ -66,14 +100,24 @@ impl LogRecorder {
         self.check_a == (0xA5A5_0000_0000_0000 | self.id as u64) && self.check_b == !self.check_a
     }
     fn enter(&self) {
+        if take_flag(&self.shared.panic_next, dsim::tid()) {
+            std::panic::resume_unwind(Box::new(DoublePanic));
+        }
         let n = self.shared.in_flight.fetch_add(1, Ordering::SeqCst) + 1;
         self.shared.max_in_flight.fetch_max(n, Ordering::SeqCst);
         if self.shared.yield_inside.load(Ordering::SeqCst) {
             dsim::point("double.inside");
         }
+        let ns = self.shared.sleep_inside_ns.swap(0, Ordering::SeqCst);
+        if ns > 0 {
+            dsim::sleep(ns);
+        }
     }
     fn leave(&self) {
         self.shared.in_flight.fetch_sub(1, Ordering::SeqCst);
+        if take_flag(&self.shared.reenter_next, dsim::tid()) {
+            metrics::counter!("nested_emission").increment(1);
+        }
     }
     fn log(&self, op: &str, name: &str, labels: Vec<(String, String)>, md: Option<&Metadata<'_>>, unit: Option<Unit>, desc: &str) {
         let ev = Ev {
